@@ -271,6 +271,9 @@ class SiteTracer(Tracer):
         elif isinstance(d, tuple) and d and d[0] == "elems":
             loop = ("iter", hint, d)
             val = app("elem", d[1], var(hint))
+        elif isinstance(d, tuple) and d and d[0] in ("windows", "chunks_exact") and len(d) == 3:
+            loop = ("iter", hint, d)
+            val = app("window", d[1], d[2], var(hint))
         else:
             loop = ("iter", hint, d)
             val = app("elem?", var(hint))
@@ -793,7 +796,11 @@ class Audit:
                 auto = "full range `[..]` cannot be out of bounds"
             elif isinstance(idx, Poly):
                 ln = self.len_of(vals[0])
-                if any(proves_lt(idx, l, facts, s["loops"]) for l in ln):
+                wa = single_atom(unwrap_mut(vals[0])) if isinstance(vals[0], Poly) else None
+                if wa and atom_fn(wa) == "window" and isinstance(atom_args(wa)[1], Poly) and atom_args(wa)[1].const_value() is not None \
+                        and idx.const_value() is not None and 0 <= idx.const_value() < atom_args(wa)[1].const_value():
+                    auto = "constant index %s into a window of %s elements" % (idx.const_value(), atom_args(wa)[1].const_value())
+                elif any(proves_lt(idx, l, facts, s["loops"]) for l in ln):
                     auto = "index %r < len" % (idx,)
         elif kind == "contract":
             base = detail.rsplit("::", 1)[-1]
@@ -848,6 +855,9 @@ class Audit:
                 s["dup"] = True
             if key in ("call:zeros", "call:uninit", "call:from_elem"):
                 auto = "allocation of the declared size (no index involved)"
+            if key in ("call:windows", "call:chunks", "call:chunks_exact") and len(vals) == 2 and isinstance(vals[1], Poly) and \
+                    vals[1].const_value() is not None and vals[1].const_value() > 0:
+                auto = "non-zero constant window/chunk size"
         elif kind == "panic":
             key = "panic"
         elif kind == "ovl-div":
